@@ -27,6 +27,10 @@ type Opts struct {
 	Time   bool // time.Now/Since/Sleep/After, context.WithTimeout/WithDeadline
 	Access bool // access events: fields, derefs, globals, captured variables, maps
 	Elems  bool // access events for slice/array elements too
+	// NoFields restricts Access to maps, package-level variables and captured
+	// variables (no field selectors, no pointer dereferences): for hot code
+	// whose structs are covered by other means.
+	NoFields bool
 	Main   bool // package main: log.Fatal*, os.Exit, fmt.Print* ; main renamed to Main, package renamed
 	// MainPkgName is the new package name when Main is set.
 	MainPkgName string
